@@ -87,6 +87,13 @@ class G:
             wglob = self.choice(globs)
             L.append(f"    global {wglob}")
             self.features.add("global-write")
+        if self.chance(6):
+            # a guard whose test is a compile-time constant: the function starts with an unconditional jump to its
+            # end (or with nothing at all), in front of whatever the calling convention puts there
+            self.features.add("constant-guard-first")
+            taken = self.chance(60)
+            L.append(f"    if {self.choice(['3 > 2', '1 == 1', '5 >= 5']) if taken else self.choice(['1 > 2', '2 == 3'])}:")
+            L.append(f"        return {self.mix(params)}" if has_ret else "        return")
         self.uid += 1
         t = f"t{self.uid}"
         m0 = self.mix(params)
